@@ -23,6 +23,27 @@ CLAIMED = {
     "C20": ("DESIGN.md §2 C20",
             "Bounded symbolic model checking: the real _FourierLayer/FNO run on symbolic input fields, kernels and channel maps with an exact DFT over Q(sqrt2,sqrt3); shift-equivariance for every axis and shift, nodal agreement across resolutions for band-limited inputs and input-immutability are polynomial identities proved by z3.",
             "grid sizes dividing 24, <=4-D, channels<=2; tanh uninterpreted; band limit K<N/2; space_res batch-norm variant outside; FFT kernels validated against torch.fft on every run"),
+    "C03": ("DESIGN.md §2 C03",
+            "Bounded symbolic model checking with the REAL autograd engine: for every subset of the monomial basis (degree bound), with symbolic coefficients and symbolic evaluation points, each operator's result is proved (z3) equal, cell by cell, to the closed-form derivative computed by an independent polynomial algebra; structural-zero cases must not raise; row independence by free-variable analysis.",
+            "templates: polynomials of degree<=2 (quick)/3 (thorough) in <=3 variables, sin/exp/tanh of linear forms (thorough); batch (2,),(3,),(2,2); float precision only as result dtype; a second batch axis with >=2 variables for grad/normal_derivative is reported"),
+    "C04": ("DESIGN.md §2 C04",
+            "Bounded symbolic model checking: real conditions with a real FCN (symbolic weights, polynomial activation), symbolic sampled points, parameters and data functions; every argument the residual receives and the returned loss are proved (z3) equal to an independent recomputation from the sampled points.",
+            "models: FCN hidden (2,) with z*z activation; n<=3 points; all orderings of <=3 variables (thorough); weight applied by the Solver is checked in C07"),
+    "C08": ("DESIGN.md §2 C08",
+            "Bounded symbolic model checking: real models with every weight and every input cell symbolic; permutation invariance, rejection of missing variables, row independence, batch-axis arrangement, Sequential=composition, Parallel=join are proved cell by cell (z3; tanh uninterpreted).",
+            "hidden (2,)/(2,2), <=3 input variables of dim<=2, batch 2/(2,2)/3; initialisers stubbed (weights overwritten by symbols); for disequalities z3 cannot decide, a concrete instance of the symbolic claim is proved instead and replayed"),
+    "C09": ("DESIGN.md §2 C09",
+            "Bounded symbolic model checking through the real custom autograd.Function: DeepONet output = branch-trunk inner product for separately evaluated features; all ways of supplying the branch input agree; fast trunk path vs plain nn.Linear twin: outputs, grad, laplacian and all parameter gradients (incl. double backward) proved identical (z3).",
+            "trunk in-dim 2, hidden (2,)/(2,2), 2-3 neurons, out-dim<=2, 2 functions x 2-3 locations; x^2/x^3 activations (quick), tanh/sin (thorough)"),
+    "C14": ("DESIGN.md §2 C14",
+            "Bounded symbolic model checking: sets of 2-3 real conditions sharing user objects are constructed/evaluated in every interleaving; each loss term is proved (z3) identical to that of an identically built condition alone; user containers compared by identity; static-sampler repeatability; periodic left/right data by free-variable and renaming queries.",
+            "2-3 conditions out of pinn/mean/periodic/integro/hpm, n<=3 points, all interleavings (90 for three conditions, thorough)"),
+    "C15": ("DESIGN.md §2 C15",
+            "Bounded symbolic model checking of the sampler state machines: resample interval and history positions are symbolic integers (forked), the tag returned by every call is proved to follow the documented machine, plus an inductive step from an arbitrary state (any history length); adaptive samplers: loss vector/ratio symbolic, every keep-set forked, kept rows/fresh rows/row count proved.",
+            "interval<=4 & 9 calls (quick), <=8 & 20 calls (thorough) + inductive step with counters up to 1e6; adaptive n<=3/4"),
+    "C16": ("DESIGN.md §2 C16",
+            "Bounded symbolic model checking of the index arithmetic: the real dataset classes run on symbolic sizes/batch sizes/indices (16-bit bit-vectors with proved no-overflow obligations) with index-recording stand-ins; pairing/in-range/batch-size per path and coverage with the bounded forall expanded into one query; plus real loaders on symbolic data cells with every permutation forked; full-dataset aggregation of DataCondition.",
+            "all sizes and batch sizes <=6 (quick)/<=10 (thorough); DataLoader(batch_size=None) modelled as for idx in range(len(ds)) in route A (route B iterates the real DataLoader)"),
 }
 
 NOT_APPLICABLE = {
